@@ -102,7 +102,7 @@ Proof.
   destruct sh as [_ _ Ee _|c0 cs cn m0 push _ Hsub Hcn _ _ _ Ee|c0 order cn Ho Hcn _ _ _ Ee|d Ho _ _].
   - now apply (Ee e He).
   - rewrite Hsub in S. inversion S; subst. rewrite (peer_conn g c cn Hcn). rewrite Ee in He.
-    destruct push; cbn in He; intuition (subst; reflexivity).
+    destruct push, (record_used sym_v id_of_n (c_peer cn) m0); cbn in He; intuition (subst; reflexivity).
   - rewrite Ee in He. destruct He.
   - subst o. discriminate.
 Qed.
@@ -274,11 +274,34 @@ Proof.
   destruct b; [reflexivity|]. exfalso. now apply (Hc ch).
 Qed.
 
+Lemma c_evrec : cl_evrec g m o x = true.
+Proof.
+  unfold cl_evrec, subj_peer. destruct (subject o) as [c|] eqn:S; [|reflexivity].
+  destruct (message_of o) as [cs|] eqn:M; [|reflexivity].
+  destruct (existsb (fun e => fst e =? 4) (wo_events x)) eqn:Ev; [|reflexivity]. cbn [negb orb].
+  apply existsb_exists in Ev. destruct Ev as [ev [He E4]]. cbn in He. apply Z.eqb_eq in E4.
+  destruct sh as [_ _ Ee _|c0 cs0 cn m0 push Hm Hsub Hcn Hr _ _ Ee|c0 order cn Ho _ _ _ _ _|d Ho _ _].
+  - destruct (Ee ev He) as [E2 _]. lia.
+  - rewrite M in Hm. inversion Hm; subst cs0. rewrite S in Hsub. inversion Hsub; subst c0.
+    rewrite (peer_conn g c cn Hcn).
+    destruct (record_used sym_v id_of_n (c_peer cn) m0) eqn:Ru.
+    2:{ rewrite Ee in He. destruct push; cbn in He; intuition (subst; cbn in E4; lia). }
+    unfold record_used in Ru. destruct (rec_of_msg sym_v m0) as [e|] eqn:R; [|discriminate].
+    destruct (consume_signed id_of_n (c_peer cn) e) as [l|] eqn:C; [|discriminate].
+    unfold rec_of_msg in R. destruct (m_rec m0) as [| |e'] eqn:Rm; try discriminate.
+    destruct (envelope_ok sym_v e') eqn:Ok; [|discriminate]. inversion R; subst e'.
+    destruct (consume_signed_sealed sym_v sym_o sym_v_ideal id_of_n (c_peer cn) e l Ok C) as [Hs' _].
+    destruct (read_all_parts cs m0 Hr) as [_ [Hn|[ch [Hch Hrec]]]]; [congruence|].
+    apply existsb_exists. exists ch. split; [exact Hch|]. rewrite <- Hrec, Rm. now apply sealed_valid_own.
+  - subst o. discriminate.
+  - subst o. discriminate.
+Qed.
+
 Lemma mon_step_ok : mon_step g m o x = [].
 Proof.
   unfold mon_step, clauses. cbn [flat_map fst snd].
   now rewrite c_calls, c_events, c_others, c_key, c_protos, c_cap, c_source, c_recent, c_fallback,
-    c_connected, c_wait.
+    c_connected, c_wait, c_evrec.
 Qed.
 
 Lemma mon_next_ok : mon_next g m o x = mon_of g s'.
@@ -345,6 +368,13 @@ Proof.
   { intros s0 H. unfold finish_task in H. cbn in H. apply close_chan_open in H. now destruct H. }
   destruct out as [| |cs]; cbn [fst]; try apply F.
   destruct (handle_response _ _ _ _ _ _ _ _) as [[[s1 calls] evs]|]; cbn [fst]; apply F.
+Qed.
+
+Lemma mon_run_all_nocap g : g_pcap g = 0 -> forall tr m i, mon_run_all g m i tr = mon_run g m i tr.
+Proof.
+  intros Hp. induction tr as [|[o x] tr IH]; intros m i; [reflexivity|]. cbn [mon_run_all mon_run].
+  unfold mon_step_all, cl_bookcap. rewrite Hp. cbn [Z.ltb Z.compare].
+  destruct (subj_peer g o); rewrite app_nil_r; destruct (mon_step g m o x); try reflexivity; apply IH.
 Qed.
 
 (* ---- race cases: the final-state check accepts the model ------------------------------------------ *)
